@@ -55,7 +55,8 @@ def run(repo, tier):
         if p.exit != "return":
             continue
         bare = [n for n in ast.walk(p.exit_node.value) if isinstance(n, ast.Attribute) and n.attr == "ref" and dotted(n.value) == like]
-        guarded = any(e.kind == "test" and e.pol and "defined_refs" in norm_src(e.node) for e in p.events)
+        guarded = any(e.kind == "test" and "defined_refs" in norm_src(e.node)
+                      and (e.pol if not (isinstance(e.node, ast.Compare) and isinstance(e.node.ops[0], ast.NotIn)) else not e.pol) for e in p.events)
         via = any((call_name(c) or "").endswith("tostring") and c.args and dotted(c.args[0]) == like for c in calls_in(p.exit_node.value))
         ok = (via or guarded) and not (bare and not guarded)
         r.ob(
@@ -252,9 +253,9 @@ def run(repo, tier):
                 n_like += 1
                 guard = None
                 for e2 in p.events[:i]:
-                    if e2.kind == "test" and isinstance(e2.node, ast.Compare) and isinstance(e2.node.ops[0], ast.In) and dotted(e2.node.left) == f"{like}.ref" \
+                    if e2.kind == "test" and isinstance(e2.node, ast.Compare) and isinstance(e2.node.ops[0], (ast.In, ast.NotIn)) and dotted(e2.node.left) == f"{like}.ref" \
                             and (dotted(e2.node.comparators[0]) or "").endswith("defined_refs"):
-                        guard = e2.pol
+                        guard = e2.pol if isinstance(e2.node.ops[0], ast.In) else not e2.pol
                 if short:
                     ok = guard is True
                     why = ("the like operand is printed as the bare `$like.ref` on a path that does not establish `like.ref in "
